@@ -16,6 +16,18 @@ use crate::registry::ValidatorResponse;
 use cosmwasm_std::{StdError, StdResult, Uint128};
 use std::ops::Sub;
 
+/// Verification hook (only with `--cfg krp_verif`): counts the passes of the outer loop of
+/// `calculate_undelegations` and bounds them, so that a monitor can decide termination on a
+/// logical bound instead of a wall-clock timeout.
+#[cfg(krp_verif)]
+pub mod verif_hook {
+    use std::cell::Cell;
+    thread_local! {
+        pub static UNDELEGATION_PASSES: Cell<u64> = Cell::new(0);
+    }
+    pub const PASS_LIMIT: u64 = 64;
+}
+
 pub fn calculate_delegations(
     mut amount_to_delegate: Uint128,
     validators: &[ValidatorResponse],
@@ -70,7 +82,20 @@ pub fn calculate_undelegations(
 
     let mut undelegations = vec![Uint128::zero(); validators.len()];
 
+    #[cfg(krp_verif)]
+    verif_hook::UNDELEGATION_PASSES.with(|c| c.set(0));
+
     while !undelegation_amount.is_zero() {
+        #[cfg(krp_verif)]
+        {
+            let passes = verif_hook::UNDELEGATION_PASSES.with(|c| {
+                c.set(c.get() + 1);
+                c.get()
+            });
+            if passes > verif_hook::PASS_LIMIT {
+                return Err(StdError::generic_err("verif: pass limit"));
+            }
+        }
         let total_coins_after_undelegation = total_delegated.sub(undelegation_amount);
         let coins_per_validator = total_coins_after_undelegation.u128() / validators.len() as u128;
         let remaining_coins = total_coins_after_undelegation.u128() % validators.len() as u128;
